@@ -480,12 +480,35 @@ func runJob(j *job) *jobResult {
 	return r
 }
 
+// dropPanickingSeeds removes every valid seed on which the code under test panics (a violation in
+// itself, reported by the parent) so that the rest of the exploration can go on; parent and workers
+// do the same, deterministically.
+func dropPanickingSeeds() (dropped []string) {
+	for _, e := range entries {
+		var keep []seed
+		for si := range e.Seeds {
+			if _, pan := callOnce(e, e.Seeds[si].Data, si); pan != "" {
+				first := pan
+				if i := strings.Index(first, "\n"); i > 0 {
+					first = first[:i]
+				}
+				dropped = append(dropped, fmt.Sprintf("%s/%s: %s", e.Name, e.Seeds[si].Name, first))
+				continue
+			}
+			keep = append(keep, e.Seeds[si])
+		}
+		e.Seeds = keep
+	}
+	return dropped
+}
+
 // workerMain is the entry of a worker process.
 func workerMain() {
 	runtime.GOMAXPROCS(2)
 	debug.SetMaxStack(maxStackBytes)
 	out = bufio.NewWriterSize(os.Stdout, 1<<16)
 	initAll()
+	dropPanickingSeeds() // reported by the parent, which does the same
 	// References for every seed.
 	for _, e := range entries {
 		for si := range e.Seeds {
